@@ -1119,6 +1119,60 @@ def multiport_selfclosing_member(ctx, hook):
     return n
 
 
+def ioport_selfclosing_input_cases(ctx, hook):
+    """An IOPort wrapped around an input device that hangs up by itself (the wrapper stays open - how it reports the end
+    is not judged): what the device had taken in is handed out through the wrapper, and the blocking call that follows
+    *terminates* - returns or raises within a bounded number of pauses - instead of waiting for ever on a device that
+    can never deliver again."""
+    n = 0
+    for ndev, batch, close_at in ((0, 1, 0), (1, 1, 1), (3, 1, 1), (3, 3, 3), (3, 1, 3), (2, 2, 0)):
+        for via in ('receive', 'iterate', 'poll-then-receive'):
+            case = {'kind': 'ioport-selfclosing-input', 'ndev': ndev, 'batch': batch, 'close_at': close_at, 'via': via}
+            log = []
+            dev = [dev_msg(i) for i in range(ndev)]
+            pin = RecordingPort('i', log=log, dev=list(dev), batch=batch, close_at=close_at, label='in')
+            pout = RecordingPort('o', log=log, label='out')
+            port = IOPort(pin, pout)
+            hook.arm({}, None, None, limit=40)
+            got, ended = [], None
+            try:
+                if via == 'iterate':
+                    for m in BaseIterate(port):
+                        got.append(m)
+                    ended = 'iteration ended'
+                else:
+                    if via == 'poll-then-receive':
+                        m = port.poll()
+                        got.append(m) if m is not None else None
+                    for _ in range(ndev + 2):
+                        m = port.receive()
+                        got.append(m)
+                    ended = 'receive returned'
+            except HarnessAbort as exc:
+                ended = None
+                ctx.check('blocking call bounded sleeps', False, 'ioport:selfclosing-input-blocked', case,
+                          {'delivered': [tag_of(m) for m in got], 'why': str(exc)})
+            except (ValueError, OSError) as exc:
+                ended = f'raised {type(exc).__name__}'
+            except Exception as exc:
+                ended = f'raised {type(exc).__name__}'
+                ctx.fail('results == lifecycle model', f'ioport:selfclosing-input:{type(exc).__name__}', case, repr(exc))
+            if ended is not None:
+                taken = min(ndev, max(close_at, batch) if ndev else 0)
+                # every message the device had taken in before it hung up was handed out first (never more than it held)
+                tags = [tag_of(m) for m in got]
+                ctx.check('results == lifecycle model', tags == [('d', i) for i in range(len(tags))] and len(tags) >= min(taken, ndev)
+                          and len(tags) <= ndev, 'ioport:selfclosing-input-delivery', case, {'delivered': tags, 'ended': ended})
+                ctx.count('blocking call bounded sleeps')
+            for p_ in (port, pin, pout):
+                try:
+                    p_.close()
+                except Exception:
+                    pass
+            n += 1
+    return n
+
+
 def multiport_failing_member(ctx, hook):
     """One member's device read fails (OSError) during a polling round.  Whatever the round had
     already taken out of the healthy members has been taken in by the MultiPort: it must still be
@@ -1525,6 +1579,10 @@ def run(ctx):
             ctx.nontrivial(None, k)
             ctx.extra('echo_blocking_cases', k)
             n += k
+            k = ioport_selfclosing_input_cases(ctx, hook)
+            ctx.nontrivial(None, k)
+            ctx.extra('ioport_selfclosing_input_cases', k)
+            n += k
             k = selfclosing_on_send_cases(ctx, hook)
             ctx.nontrivial(None, k)
             ctx.extra('selfclosing_on_send_cases', k)
@@ -1568,6 +1626,8 @@ def replay(ctx, case):
             socket_lifecycle_cases(ctx, hook)
         elif k == 'multi-selfclose':
             multiport_selfclosing_member(ctx, hook)
+        elif k == 'ioport-selfclosing-input':
+            ioport_selfclosing_input_cases(ctx, hook)
         elif k == 'selfclosing-on-send':
             selfclosing_on_send_cases(ctx, hook)
         elif k == 'echo-blocking':
